@@ -285,7 +285,10 @@ def _run_c14_bmc(ck, tier, K, k, cmds, tag):
     ck.cover('bmc: limit smaller than one record and a store succeeded',
              cs + [z3.ULT(L, 24), tr.cmd[0] == CMD_ID['set'], tr.rkind[0] == 0])
     ck.cover('bmc: an eviction happened', cs + [z3.Or([z3.Or([tr.sel[t] == n for n, s in enumerate(sysm.summaries) if s.evicted]) for t in range(k)])])
-    ck.obligation(f'bmc-k{k}: stored total <= limit + record just written; acknowledged store present', cs, z3.Not(z3.Or(bad)), {}, on_w, small)
+    # one query per step (the disjunction over all steps at once was left undecided by both solvers for the widest menu)
+    for t in range(k):
+        ck.obligation(f'bmc-k{k}-{tag}: stored total <= limit + record just written; acknowledged store present (step {t + 1})', cs,
+                      z3.Not(z3.Or(bad[2 * t], bad[2 * t + 1])), {}, on_w, small)
     # translator validation: a few random histories replayed
     for seedk in range(3 if tier == 'quick' else 12):
         pick = [tr.cmd[t] == CMD_ID[cmds[(seedk + t) % len(cmds)]] for t in range(k)]
